@@ -20,7 +20,6 @@ import (
 	"fmt"
 	"io"
 	"log/slog"
-	"math"
 	"strings"
 	"sync/atomic"
 	"time"
@@ -314,8 +313,9 @@ func (d *db) GetSequenceUpdates(prefixKey string) (SequenceWaiter, error) {
 	sw := d.sequenceWaiterTracker.AddSequenceWaiter(prefixKey)
 
 	// First read last key in the sequence
+	// The upper bound is exclusive: it has to lie above the highest possible key of the sequence
 	it, err := d.kv.KeyRangeScanReverse(fmt.Sprintf("%s-%020d", prefixKey, 0),
-		fmt.Sprintf("%s-%020d", prefixKey, math.MaxInt64))
+		fmt.Sprintf("%s-%020d", prefixKey, maxSequence)+"\xff")
 	if err != nil {
 		err = multierr.Append(err, sw.Close())
 		return nil, err
